@@ -430,12 +430,14 @@ func ReadKeysAndCert(data []byte) (*KeysAndCert, []byte, error) {
 
 	pubKeySize := keyCert.CryptoSize()
 	sigKeySize := keyCert.SigningPublicKeySize()
-	padding := extractPaddingFromData(data, pubKeySize, sigKeySize)
 
+	// Validate the signing key size before touching the padding: a signing key
+	// larger than the 128-byte field leaves less room than the padding layout assumes.
 	sigKey, err := constructSigningKeyFromCert(keyCert, data, sigKeySize)
 	if err != nil {
 		return nil, remainder, err
 	}
+	padding := extractPaddingFromData(data, pubKeySize, sigKeySize)
 
 	keysAndCert := &KeysAndCert{
 		KeyCertificate:  keyCert,
